@@ -236,6 +236,13 @@ def run_slash(case):
         S.count("slash_ok")
         if bass in base:
             S.count("slash_bass_is_chord_note")
+    # an unstripped line: the same text with a line end (or blank) after it is no chord name
+    for tail in ("\n", " ", "\r\n"):
+        junk, ej = call(chords.from_shorthand, text + tail)
+        S.trans(1)
+        if ej is None or not isinstance(ej, (FormatError, NoteFormatError)):
+            S.problem("from_shorthand(%r)" % (text + tail), "FormatError / NoteFormatError", junk if ej is None else err_name(ej))
+            break
     S.outcome("|".join(map(str, got)) if isinstance(got, list) else repr(e))
 
 
@@ -268,6 +275,18 @@ def run_poly(case):
     y2, _ = call(chords.from_shorthand, yr + ys)
     if x2 != x or y2 != y:
         S.problem("from_shorthand(%r) afterwards" % text, [x, y], [x2, y2], detail="partner chords changed")
+    if e is None and got == want:
+        # lists are answered element by element, whatever halves the elements have in common
+        for lst in ([text, yr + ys], [text, xr + xs], [yr + ys, text, yr + ys], [text, yr + ys + "|" + xr + xs, text], [text, xr + xs + "m|" + yr + ys]):
+            each = [call(chords.from_shorthand, t) for t in lst]
+            if any(er is not None for _, er in each):
+                continue
+            gl, el = call(chords.from_shorthand, list(lst))
+            S.trans(len(lst) + 1)
+            if el is not None or gl != [c for c, _ in each]:
+                S.problem("from_shorthand(%r)" % (lst,), [c for c, _ in each], gl if el is None else err_name(el), detail="list of names")
+                break
+            S.count("poly_lists_checked")
     S.outcome((len(want), hit, len(got) if isinstance(got, list) else -1))
     # three layers 'X|Y|X': the statement fixes 'X|Y' only, so either grouping is accepted -- but nothing else
     # (in particular no layer may vanish)
